@@ -17,6 +17,19 @@ fn display_both(x: f64) -> (String, String) {
     (a, b)
 }
 
+/// the same number shown inside containers (list, record, record in a list in a record): each occurrence must be the scalar numeral
+fn display_nested(x: f64, scalar: &str) -> (bool, String) {
+    let s = Session::new();
+    let n = mv::num_src(x);
+    let src = format!("format(\"{{}}|{{}}\", [{n}, {{a: {n}, b: [{n}, {{c: {n}}}]}}], {{k: {{j: {n}}}}})");
+    let want = format!("[{d}, {{a: {d}, b: [{d}, {{c: {d}}}]}}]|{{k: {{j: {d}}}}}", d = scalar);
+    let got = match s.eval(&src) {
+        Outcome::Ok(v @ Value::String(_)) => v.stringify_internal(&s.heap.borrow()),
+        o => format!("<{}: {}>", o.class(), o.msg()),
+    };
+    (got == want, got)
+}
+
 pub fn replay(case: &J) -> J {
     let ds: String = case["ds"].as_array().unwrap().iter().map(|d| d.as_i64().unwrap().to_string()).collect();
     let p = case["p"].as_i64().unwrap();
@@ -70,7 +83,8 @@ pub fn record(seed: u64, n: usize) -> Vec<J> {
         let t = if x.is_finite() && x != 0.0 { true15(x) } else { None };
         let kind = if x.is_nan() { "nan" } else if x.is_infinite() { "inf" } else if x == 0.0 { "zero" } else if t.is_some() { "finite" } else { "undecided" };
         let (t15, e10, exact) = t.unwrap_or((vec![], 0, false));
-        out.push(json!({"ev":"display","bits":mv::hex(x),"text":a,"cs":cs,"same_via_format":a == b,"via_format":b,"kind":kind,"neg":x.is_sign_negative(),
+        let (nested_ok, nested) = if i % 4 == 0 || i < 200 { display_nested(x, &a) } else { (true, String::new()) };
+        out.push(json!({"ev":"display","bits":mv::hex(x),"text":a,"cs":cs,"same_via_format":a == b,"via_format":b,"same_nested":nested_ok,"nested":nested,"kind":kind,"neg":x.is_sign_negative(),
                         "true15":t15,"e10":e10,"exact":exact,
                         "int_below_2_53": x.is_finite() && x.fract() == 0.0 && x.abs() < 9007199254740992.0}));
         crate::ev::clear_stats();
